@@ -194,6 +194,21 @@ def universe(tier, seed, kinds, quick_nodes=4, thorough_nodes=5, thorough_sample
     return g, ds, txt
 
 
+def random_descrs(seed, kinds, n_nodes, count, childless=('leaf', 'none', 'empty_tuple', 'empty_dict')):
+    """`count` seeded random descriptions with exactly n_nodes nodes (uniform shape, then uniform kinds)."""
+    import random
+    rng = random.Random(seed * 1000003 + n_nodes)
+    shapes = list(S.shapes(n_nodes))
+    ks = [ALL_KINDS[k] for k in kinds]
+
+    def assign(shape):
+        if shape == ():
+            return (rng.choice(childless),)
+        ok = [k for k in ks if k.ok(len(shape))]
+        return (rng.choice(ok).name, [assign(s) for s in shape])
+    return [assign(rng.choice(shapes)) for _ in range(count)]
+
+
 # ------------------------------------------------------------------------------------------------
 # source expressions for trees
 
@@ -279,32 +294,45 @@ def mode(o):
     return optree.dict_insertion_ordered(True, namespace=o['namespace'] or S._global_ns())
 
 
-def same_tree(a, b, leaf_eq=lambda x, y: x is y):
-    """Exact structural identity: container types, key order, metadata, leaves related by leaf_eq."""
+def tree_diff(a, b, leaf_eq=lambda x, y: x is y):
+    """None when `b` is structurally identical to `a` (container types, key order, metadata, leaves related by
+    leaf_eq), else the name of the first differing aspect: container_type | key_order | metadata | children | leaf."""
     if type(a) is not type(b):
-        return False
+        return 'container_type'
     if a is None:
-        return True
-    rec = lambda xs, ys: len(xs) == len(ys) and all(same_tree(x, y, leaf_eq) for x, y in zip(xs, ys))   # noqa: E731
+        return None
+
+    def rec(xs, ys):
+        if len(xs) != len(ys):
+            return 'children'
+        for x, y in zip(xs, ys):
+            r = tree_diff(x, y, leaf_eq)
+            if r:
+                return r
+        return None
     if isinstance(a, dict):      # dict, OrderedDict, defaultdict and subclasses (exact type equal already)
         if list(a.keys()) != list(b.keys()) or not all(k1 is k2 or type(k1) is type(k2) for k1, k2 in zip(a, b)):
-            return False
+            return 'key_order' if len(a) == len(b) and all(k in b for k in a) else 'children'
         if isinstance(a, defaultdict) and a.default_factory is not b.default_factory:
-            return False
-        return all(same_tree(a[k], b[k], leaf_eq) for k in a)
+            return 'metadata'
+        return rec([a[k] for k in a], [b[k] for k in a])
     if isinstance(a, deque):
-        return a.maxlen == b.maxlen and rec(a, b)
+        return 'metadata' if a.maxlen != b.maxlen else rec(a, b)
     if isinstance(a, (tuple, list)):
         return rec(a, b)
-    if type(a).__name__ in ('CustomE', 'CustomF'):
-        return a.meta == b.meta and type(a.children) is type(b.children) and rec(a.children, b.children)
-    if type(a).__name__ in ('CustomN', 'CustomS'):
-        return type(a.children) is type(b.children) and rec(a.children, b.children)
+    if type(a).__name__ in ('CustomE', 'CustomF', 'CustomN', 'CustomS'):
+        if getattr(a, 'meta', None) != getattr(b, 'meta', None) or type(a.children) is not type(b.children):
+            return 'metadata'
+        return rec(a.children, b.children)
     if type(a).__name__ == 'DC2':
-        return a.tag == b.tag and same_tree(a.x, b.x, leaf_eq) and same_tree(a.y, b.y, leaf_eq)
+        return 'metadata' if a.tag != b.tag else rec([a.x, a.y], [b.x, b.y])
     if isinstance(a, functools.partial):
-        return a.func is b.func and same_tree(a.args, b.args, leaf_eq) and same_tree(a.keywords, b.keywords, leaf_eq)
-    return leaf_eq(a, b)
+        return 'metadata' if a.func is not b.func else rec([a.args, a.keywords], [b.args, b.keywords])
+    return None if leaf_eq(a, b) else 'leaf'
+
+
+def same_tree(a, b, leaf_eq=lambda x, y: x is y):
+    return tree_diff(a, b, leaf_eq) is None
 
 
 def ref_sorted_keys(keys):
@@ -466,7 +494,7 @@ def make_script(tree_src, o, fn_src, call, key, extras=None, pre=''):
     body = f'{pre}tree = {tree_src}\no = {opts_src(o)}\n' if tree_src is not None else pre
     text = body + fn_src + call
     need = extras if extras is not None else any(nm in text for nm in EXTRA_NAMES)
-    return (SCRIPT_HEADER + (EXTRA_SRC + '\n' if need else '') + body + '\n' + fn_src + '\n'
+    return (SCRIPT_HEADER + (EXTRA_SRC + '\n' if need else '') + '\n' + fn_src + '\n' + body
             + 'try:\n    res = ' + call + '\n'
             + 'except Exception as ex:\n    import traceback; traceback.print_exc()\n'
             + f"    res = [({key.split('.')[0] + '.unexpected_exception'!r}, repr(ex))]\n"
